@@ -166,24 +166,24 @@ def m3c(ctx):
     for l in C.iterator_loops(b):
         if role_mentions_call(l[1], "cartesian"):
             lp = l
-    ctx.check(lp is not None and C.loop_exhaustive(b, lp), "product-loop-exhaustive", "every tuple of the product yields a variant",
-              "the loop over the cartesian product can be left early", where_of(b))
-    pushes = [c for c in b.calls if c.callee and c.callee.name == "push" and not b.blocks[c.bb]["cleanup"]]
-    for i, c in enumerate(pushes):
-        C.check_only_allowed_skips(ctx, b, c.bb, [
-            ("true", lambda t, cond: t.startswith("all(") and "is_trivial" in t or (t.startswith("all(") and "ids(" in t)),
-            ("false", lambda t, cond: t.startswith("all(") and ("ids(" in t)),
-        ], "variants:%d" % i, "emitting a variant")
-    # the shortcut closure tests is_trivial of the child's class group
-    alls = [c for c in b.calls if c.callee and c.callee.name == "all"]
-    okc = False
-    for c in alls:
-        cl = strip_role(b.role_of_operand(c.args[1]))
-        if cl[0] == "agg":
-            cb = crate.bodies.get(cl[1])
-            if cb and any(x.callee and x.callee.name == "is_trivial" for x in cb.calls):
-                okc = True
-    ctx.check(okc, "shortcut-is-all-trivial", "the only shortcut is 'every child's group is trivial'", "the early return of the variant enumeration is no longer 'all child groups trivial'", where_of(b))
+    if lp is not None:
+        ctx.check(C.loop_exhaustive(b, lp), "product-loop-exhaustive", "every tuple of the product yields a variant",
+                  "the loop over the cartesian product can be left early", where_of(b))
+    else:
+        # adaptor form: the whole product is handed to extend / collect through non-dropping adaptors
+        sinks = [c for c in b.calls if c.callee and c.callee.name in ("extend", "collect", "extend_from_slice") and not b.blocks[c.bb]["cleanup"]
+                 and any(role_mentions_call(b.role_of_operand(a_), "cartesian") for a_ in c.args)]
+        badad = sorted({x[1] for c in sinks for a_ in c.args for x in role_walk(b.role_of_operand(a_)) if isinstance(x, tuple) and x[0] == "call" and x[1] in BAD_ADAPTORS})
+        ctx.check(bool(sinks) and not badad, "product-loop-exhaustive", "every tuple of the product yields a variant (the product is consumed whole by %s)" % sorted({c.callee.name for c in sinks}),
+                  "the cartesian product is not consumed whole (%s)" % (badad or "no loop / extend / collect over it"), where_of(b))
+    emits = [c for c in b.calls if c.callee and c.callee.name in ("push", "extend") and not b.blocks[c.bb]["cleanup"]]
+    shortcut = lambda t, cond: C.is_forall_role(crate, cond[1], "is_trivial", over=("ids", "applied_id_occurrences"))
+    seen_shortcut = False
+    for i, c in enumerate(emits):
+        C.check_only_allowed_skips(ctx, b, c.bb, [("true", shortcut), ("false", shortcut)], "variants:%d" % i, "emitting a variant")
+        seen_shortcut = seen_shortcut or any(kind in ("true", "false") and shortcut(t, cond) for e_, kind, t, cond in C.skip_conditions(b, c.bb))
+    # the shortcut tests is_trivial of every child's class group
+    ctx.check(seen_shortcut, "shortcut-is-all-trivial", "the only shortcut is 'every child's group is trivial'", "the early return of the variant enumeration is no longer 'all child groups trivial'", where_of(b))
     # cartesian itself: exhaustive odometer (report as information; its own unit test pins the count)
     cf = crate.free_fn("cartesian")
     ctx.info("cartesian() bodies: %d" % len(cf))
@@ -234,3 +234,14 @@ def lc(ctx):
 
 
 RULES.append(lc)
+
+
+@rule("M6", doc="the symmetries the matcher enumerates are all symmetries the class has (shared with C10.G2/G3/G6): generators() and all_perms() cover every level of the stabiliser chain, a group reconstruction keeps the old generators")
+def m6(ctx):
+    from . import c10
+    c10.g2(ctx)
+    c10.g3(ctx)
+    c10.g6(ctx)
+
+
+RULES.append(m6)
